@@ -21,6 +21,10 @@ pub struct Case {
     pub cdata: u8,
     /// None, or suppress list 0 = empty, 1 = {p}
     pub indent: Option<u8>,
+    /// walk_all index of the node that is serialised (0 = the whole tree); an inner element is serialised in place,
+    /// i.e. with the declarations of its ancestors in scope
+    #[serde(default)]
+    pub top: usize,
 }
 
 // ------------------------------------------------------------------------------------
@@ -431,7 +435,21 @@ fn has_pi_gt(a: &A) -> bool {
 pub fn eval_case(case: &Case, st: &mut Stats) -> Vec<Fail> {
     let mut fails = vec![];
     let mut xot = Xot::new();
-    let root = build1(&mut xot, &case.tree);
+    let mut handles = vec![];
+    build(&mut xot, &case.tree, &mut handles);
+    let root = handles[case.top];
+    // the subtree that is serialised
+    fn nth<'a>(a: &'a A, idx: &mut usize, target: usize) -> Option<&'a A> {
+        if *idx == target {
+            return Some(a);
+        }
+        *idx += 1 + a.nss.len() + a.attrs.len();
+        a.ch.iter().find_map(|c| nth(c, idx, target))
+    }
+    let whole = &case.tree;
+    let sub_owned = nth(whole, &mut 0, case.top).expect("top index").clone();
+    let case = &Case { tree: sub_owned, cdata: case.cdata, indent: case.indent, top: case.top };
+    let in_place = if case.top != 0 { format!(" (in place, node #{} of {})", case.top, whole.show()) } else { String::new() };
     let pname = xot.add_name("p");
     let sname = xot.add_name("script");
     let params = Parameters {
@@ -442,7 +460,7 @@ pub fn eval_case(case: &Case, st: &mut Stats) -> Vec<Fail> {
             _ => vec![],
         },
     };
-    let cfg = format!("cdata={} indent={:?}", case.cdata, case.indent);
+    let cfg = format!("cdata={} indent={:?}{}", case.cdata, case.indent, in_place);
     st.evals += 1;
     let r = catch(|| {
         let h = xot.html5();
@@ -728,27 +746,46 @@ pub fn run(tier: Tier) -> i32 {
     }
     trees.retain(|t| !foreign_raw_name(t));
     let stats = par_slice(&ctx, &trees, |t, st| {
+        // inner elements of the nested trees are also serialised in place
+        let mut tops = vec![0usize];
+        if t.k == K::Doc && t.ch.len() == 1 && t.ch[0].k == K::Elem && t.ch[0].ch.iter().any(|c| c.k == K::Elem && !c.ch.is_empty()) {
+            let mut i = 0usize;
+            t.walk_all(&mut |n: &A| {
+                if n.k == K::Elem && i > 1 {
+                    tops.push(i);
+                }
+                i += 1;
+            });
+        }
+        for top in tops {
         for cdata in 0..3u8 {
             for indent in [None, Some(0u8), Some(1u8)] {
-                let case = Case { tree: t.clone(), cdata, indent };
+                if top != 0 && (cdata == 2 || indent == Some(1)) {
+                    continue;
+                }
+                let case = Case { tree: t.clone(), cdata, indent, top };
                 let fails = eval_case(&case, st);
                 st.bump("cases");
-                st.outcome(&(t.canon(), cdata, indent));
+                st.outcome(&(t.canon(), cdata, indent, top));
+                if top != 0 {
+                    st.bump("in_place_cases");
+                }
                 for f in fails {
                     st.fail(&case, f);
                 }
             }
         }
+        }
         if st.counters["cases"] % 9001 == 9 {
             st.sample(|| json!({"tree": t.show()}));
         }
     });
-    if let Err(e) = require_nonzero(&stats, &["cases", "ok", "err"]) {
+    if let Err(e) = require_nonzero(&stats, &["cases", "ok", "err", "in_place_cases"]) {
         eprintln!("MACHINERY: {}", e);
         return 2;
     }
     let cov = json!({
-        "rule": format!("(1) single elements: 11 names (br/BR/Br/p/P/span/div/pre/script/style/foo) x 5 namespaces (none, the real XHTML URI, MathML, SVG, foreign) x default / prefixed declaration, bare, with ordinary / boolean attributes, with children, with every text / attribute value of length <= {} over {{<,&,\",',>,U+00A0,x}}; (2) 4 parents x all ordered pairs of 19 children (SVG / MathML siblings with and without own declarations, void elements in every letter case, script / style / p with markup characters, foreign elements, comments, PIs with and without '>', text); (2b) every chain of three nested elements over the 5 namespaces, each level using a prefix declared on the root or declaring its namespace as default on itself, with a text child and a following sibling at the innermost level; (3) detached nodes of every kind and text directly under a document; x CDATA-section elements {{none, p, script}} x indentation {{off, on, on with p suppressed}}; distinct = distinct (tree, parameters)", tier.pick(2, 3)),
+        "rule": format!("(1) single elements: 11 names (br/BR/Br/p/P/span/div/pre/script/style/foo) x 5 namespaces (none, the real XHTML URI, MathML, SVG, foreign) x default / prefixed declaration, bare, with ordinary / boolean attributes, with children, with every text / attribute value of length <= {} over {{<,&,\",',>,U+00A0,x}}; (2) 4 parents x all ordered pairs of 19 children (SVG / MathML siblings with and without own declarations, void elements in every letter case, script / style / p with markup characters, foreign elements, comments, PIs with and without '>', text); (2b) every chain of three nested elements over the 5 namespaces, each level using a prefix declared on the root or declaring its namespace as default on itself, with a text child and a following sibling at the innermost level; (2c) every inner element of the nested trees of (2) / (2b) serialised in place (the declarations of its ancestors in scope); (3) detached nodes of every kind and text directly under a document; x CDATA-section elements {{none, p, script}} x indentation {{off, on, on with p suppressed}}; distinct = distinct (tree, parameters)", tier.pick(2, 3)),
     });
     ctx.finish(stats, cov, vec!["HtmlScan (120 lines) is trusted; it knows script / style as raw-text elements".into()])
 }
